@@ -277,7 +277,7 @@ class PVLParser(object):
                     parsing = True
                 else:
                     return m
-            except LexerError:
+            except (LexerError, ParseError):
                 raise
             except Exception:
                 pass
